@@ -4,6 +4,7 @@ import TongoProofs.Lemmas.TlbRead
 import TongoProofs.Lemmas.TlbSnakeCost
 import TongoProofs.Lemmas.TlbDecTotal
 import TongoProofs.Lemmas.TlbAlloc
+import TongoProofs.Lemmas.BitsBridgeRd
 /-! Property C08 — TL-B and TL decoders are total on untrusted input: value or error, never a panic, no allocation or
 time out of proportion to the input. Property theorems only; lemmas live in `TongoProofs/Lemmas`.
 
@@ -19,12 +20,24 @@ fields, unsupported kinds) and every byte string, the repaired decoder returns a
 theorem tl_decode_total (ty : Ty) (bs : List UInt8) : (run Cfg.fixed ty bs).1.isPanic = false :=
   decode_np ty ⟨bs, 0, 0⟩
 
-/-- The partial operations of the TL model are live: `binary.LittleEndian.Uint32` on a short slice and `chunk[:k]`
-beyond the chunk panic. `tl_decode_total` has to PROVE they are not reached: `io.ReadFull` fills the buffer or fails
-(`readFull_ok_len`), the loop condition `len(data) < n` keeps `k = min(n - len(data), len(chunk))` within the chunk. -/
+/-- The partial operations of the TL model are live: `chunk[:k]` beyond the chunk (tl/decoder.go:153) and
+`reflect.MakeSlice` with a negative capacity (:275) panic. `tl_decode_total` has to PROVE they are not reached: the
+loop condition `len(data) < n` and the clamp keep `k = min(n - len(data), len(chunk))` within the chunk; the capacity
+`min(count, 256)` of an unsigned count is not negative. (`binary.LittleEndian.Uint32` on the constant-length buffers of
+the decoder cannot panic in Go and is total in the model.) -/
 theorem tl_partial_ops_live :
-    (u32le [1, 2, 3]).isPanic = true ∧ (u64le [1, 2, 3, 4, 5, 6, 7]).isPanic = true ∧
-    (sliceTo 4096 4097 ⟨[], 0, 0⟩).1.isPanic = true ∧ (sliceTo 4096 (-1) ⟨[], 0, 0⟩).1.isPanic = true := by decide
+    (sliceTo 4096 4097 ⟨[], 0, 0⟩).1.isPanic = true ∧ (sliceTo 4096 (-1) ⟨[], 0, 0⟩).1.isPanic = true ∧
+    (makeSliceCap (-1) 8 ⟨[], 0, 0⟩).1.isPanic = true := by decide
+
+/-- DEFECT (repaired by 730d89f, replayed with GOARCH=386): where `int` has 32 bits the vector count `ff ff ff ff` is
+`-1` as an `int`, the capacity handed to `reflect.MakeSlice` is negative and the decoder panics; with 64-bit `int` the
+same code does not (`tl_decode_int32_only`). The package `tl` builds for 32-bit targets (liteclient does not). -/
+theorem tl_decode_int32_count_panics :
+    (run Cfg.int32 (.vec 4 .int4) [0xff, 0xff, 0xff, 0xff]).1.isPanic = true := by decide
+
+theorem tl_decode_int32_only :
+    (run Cfg.fixed (.vec 4 .int4) [0xff, 0xff, 0xff, 0xff]).1.isPanic = false ∧
+    (run Cfg.int32 (.vec 4 .int4) [0xff, 0xff, 0xff, 0x7f]).1.isPanic = false := by decide
 
 /-- The repaired decoder requests at most `allocA ty` bytes per input byte plus `allocB ty` (constants computed from the
 descriptor: element sizes and the two preallocation caps), whatever the outcome. `ty.wf`: every vector element type
@@ -100,17 +113,25 @@ theorem processQueryAnswer_length (p : List UInt8) (d : List UInt8)
     (h : TlD.processQueryAnswer p true = .ok d) : d.length + 37 ≤ p.length :=
   processQueryAnswer_len p d h
 
-/-- `VmStack.Unmarshal` (`s[i]` behind the `NumField() > len(s)` guard) and `decodeAccountDataFromProof`
-(`cells[1]`, `values[i]` over parallel key/value slices) never index out of range. -/
-theorem index_helpers_total (numField len nRoots nKeys hit : Nat) :
-    (vmStackUnmarshal numField len).isPanic = false ∧ (accountFromProof nRoots nKeys nKeys hit).isPanic = false :=
-  ⟨vmStackUnmarshal_np numField len, accountFromProof_np nRoots nKeys hit⟩
+/-- On the guard abstraction of Helpers08.lean (lengths as `Nat`, the content is `i < n` before `a[i]`):
+`VmStack.Unmarshal` (`s[i]` behind the `NumField() > len(s)` guard) and `decodeAccountDataFromProof` (`cells[1]`,
+`values[i]` for `i` found in `keys`) never index out of range. HYPOTHESIS `hkv`: the dictionary decoder returned at least
+as many values as keys — `Hashmap.mapInner` appends one value and then one key per leaf and fails as a whole on any
+error (tlb/hashmap.go:341,353); that is read off the code and exercised by `go.proof`, it is not a theorem. Without it
+the helper does panic (`accountFromProof_needs_parallel_slices`). -/
+theorem index_helpers_total (numField len nRoots nKeys nValues hit : Nat) (hkv : nKeys ≤ nValues) :
+    (vmStackUnmarshal numField len).isPanic = false ∧ (accountFromProof nRoots nKeys nValues hit).isPanic = false :=
+  ⟨vmStackUnmarshal_np numField len, accountFromProof_np nRoots nKeys nValues hit hkv⟩
+
+theorem accountFromProof_needs_parallel_slices : (accountFromProof 2 3 2 2).isPanic = true := by decide
 
 /-- DEFECT (code as found, #16): `GetTransactions` indexes `r.Ids[i]` for every root cell of `r.Transactions`; a server
 answering with more transactions than block ids makes the client panic. -/
 theorem getTransactions_orig_panics : (getTransactions false 0 1 (fun _ => true)).isPanic = true := by decide
 
-/-- repaired: a length mismatch is an error; otherwise every index is in range -/
+/-- repaired (on the guard abstraction of Helpers08.lean: lengths as `Nat`, the loop and its index expression; what the
+lengths are lengths of is tied by the `h.*` / `go.net.gettx` lines): a length mismatch is an error; otherwise every
+index is in range -/
 theorem getTransactions_total (nIds nCells : Nat) (cellOk : Nat → Bool) :
     (getTransactions true nIds nCells cellOk).isPanic = false := getTransactions_np nIds nCells cellOk
 
@@ -118,6 +139,7 @@ theorem getTransactions_total (nIds nCells : Nat) (cellOk : Nat → Bool) :
 `code.ParseContractMethods` and `tlb.VmStack.UnmarshalTL`. Witness on Go: `b5ee9c7201020000000000`. -/
 theorem firstRoot_orig_panics : (firstRoot false 0).isPanic = true := by decide
 
+/-- repaired, on the guard abstraction: an empty root list is an error before `cell[0]` -/
 theorem firstRoot_total (nRoots : Nat) : (firstRoot true nRoots).isPanic = false := by
   unfold firstRoot
   by_cases h : nRoots = 0
@@ -137,7 +159,8 @@ theorem vmCellSlice_zero_panics : (VmCellSlice.toCell ⟨none, 0, 0, 0, 0⟩).is
 empty tuple. -/
 theorem tuple_orig_nil_panics : (tupleUnmarshalStruct false 0 .nil 0).isPanic = true := by decide
 
-/-- repaired: tuple → struct conversion never panics; `RecursiveToSlice(depth)` returns exactly `depth` values or an
+/-- repaired, on the guard abstraction (tuple shape and lengths; the values are opaque): tuple → struct conversion never
+panics; `RecursiveToSlice(depth)` returns exactly `depth` values or an
 error, so `values[i]` is in range -/
 theorem tuple_total (len : Nat) (data : Tuple) (numField : Nat) :
     (tupleUnmarshalStruct true len data numField).isPanic = false := tupleUnmarshalStruct_np len data numField
@@ -167,6 +190,17 @@ theorem tlb_prims_total_by_construction (r : Rd) (n : Int) (hn : 0 ≤ n) (m : I
 /-- a negative width is an ERROR of the repaired readers (repo fix 31abce9; it reached slicing before) -/
 theorem tlb_prims_negative_width_is_error : (Tlb.readUint (-8) ⟨[], []⟩).isErr = true :=
   Tlb.readUint_negative_is_error
+
+/-- The ideal-level reader `Tlb.Rd` of TlbRead.lean REFINES property C06's byte-level model of the repaired
+`boc.BitString` for EVERY width, negative included (agent bits' bridge `BitsBridgeRd`; its hypothesis — a negative
+count is `ErrNegativeBitLen`, checked first — is discharged here against the current TlbRead.lean): `readUint`,
+`readBits`, `skip` return the same value, the same rest and the same error as `ZOp.spec`, which C06.zop_refines ties to
+the byte buffer that is compared with Go on every run. -/
+theorem tlb_prims_refine_bitstring :
+    Tongo.Bridge.RdReadUintFull ∧ Tongo.Bridge.RdReadBitsFull ∧ Tongo.Bridge.RdSkipFull :=
+  ⟨Tongo.Bridge.rd_readUint_full (by intro n r hn; simp [Tlb.readUint, hn]; rfl),
+   Tongo.Bridge.rd_readBits_full (by intro n r hn; simp [Tlb.readBits, hn]; rfl),
+   Tongo.Bridge.rd_skip_full (by intro n r hn; simp [Tlb.skip, hn]; rfl)⟩
 
 /-- `loadLabel` / `loadLabelSize` never panic: for every claimed remaining key size (a Go int, negative included —
 `ReadLimUint` then reads 64 bits and `int(ln)` may wrap), every cell content, key prefix and key capacity. The
